@@ -7,6 +7,7 @@
 //! The same request file is fed to the Lean driver (`msidriver`); check.py diffs the
 //! reply streams.  All random choices derive from the single seed.
 
+mod colfmt;
 mod exec;
 mod expr;
 mod gen;
